@@ -137,12 +137,19 @@ def check_seq(t, r, start, new):
             exp += [(a, start, l), (start, b, l)] if a < start < b else [(a, b, l)]
     if sorted(got) != sorted(exp) and sorted(merge(got)) != sorted(merge(exp)):
         return "the surviving non-zero leaves are not the originals clipped outside [start, start + d)"
-    # zero-length leaves strictly before start / strictly after start + d stay at their time (one sitting exactly at
-    # start + d at the end of a shortened nested child survives but ends up at `start`: the edge is not constrained)
+    # zero-length leaves strictly before start / strictly after start + d stay at their time. Exactly at start + d only a
+    # direct child of the sequence is required to survive (it is not part of [start, start + d)); a zero-length leaf that ends
+    # a nested child there is deleted with that child if it is covered completely, or is moved to `start` if the child is
+    # shortened - the model agrees, the property does not constrain that edge.
     zr = zero_leaves(r)
     for (a, l) in zero_leaves(t, seq_only=True):
         if (d == 0 or a < start or a > start + d) and (a, l) not in zr:
             return f"zero-length leaf {l} at time {a} lies outside [start, start + d] but did not survive at its time"
+    o = 0
+    for c in sp.kids(t):
+        if d > 0 and c[0] == "L" and c[1] == 0 and o == start + d and (o, c[2]) not in zr:
+            return f"zero-length child {c[2]} sitting exactly at start + d was deleted"
+        o += sp.dur(c)
     return None
 
 
